@@ -18,6 +18,7 @@ func init() {
 		ID:    "C14",
 		Level: "exploration",
 		Rule: "rate limiter: generated per-source request scripts (times, amounts) merged into one multi-source history (2-12 sources, capacities 1..default, sources <= capacity) on the frozen clock; each source's projected decision sequence (admit/429 and advertised delay) must equal the sequence it gets when run alone on the same clock schedule (differential against the real code); " +
+			"a quarter of the merge cases use per-source cached rate sets that are re-configured in place, and requests whose rate extractor faults (recovered panic) after which every request runs under a watchdog; " +
 			"capacity pressure in victim-unambiguous form (creation order = last-use order, distinct expiry seconds): exactly the source nearest to expiry restarts afresh, every other drained source stays rejected; " +
 			"part plans: per-request rate plans (ExtractRates) with different longest periods, so that a tracked source's remembered lifetime grows and shrinks; every decision of a random multi-source history over a full table is predicted by a reference table (entry lifetime = 10 x longest period + 1s from the last request, victim = nearest to expiry, nothing refills during a case); " +
 			"connection limiter: merged controlled start/finish scripts vs the solo run of each source; concurrent variant (race build): one goroutine per source; non-trivial = merged history in which >=2 sources each saw an admission and a rejection; distinct by (rates, capacity, script)",
